@@ -275,6 +275,18 @@ func zzExecOpts(g *zzGraph, tf *ast.Taskfile, o zzRunOpts, terminal bool, roots 
 	for _, r := range roots {
 		calls = append(calls, &Call{Task: r})
 	}
+	if zz.Native() {
+		// watchdog: a run that does not return is a deadlock (reported to the replay)
+		done := make(chan error, 1)
+		go func() { done <- e.Run(context.Background(), calls...) }()
+		select {
+		case err := <-done:
+			return zz.Trace(), err
+		case <-time.After(8 * time.Second):
+			fmt.Println("ZZ-TIMEOUT the invocation did not terminate")
+			return zz.Trace(), fmt.Errorf("zz: did not terminate")
+		}
+	}
 	err := e.Run(context.Background(), calls...)
 	return zz.Trace(), err
 }
